@@ -151,6 +151,10 @@ def attribute(diag_sets: list, rows: list, line: int) -> tuple[set, list]:
                     props.add("C09")
             if not row.get("dn"):
                 props |= {"C09", "C11"}
+    if row.get("c") == "EnvJunk":
+        # the first fatal cause (requires-encryption / protocol error) must take effect at the offending byte:
+        # what the waiting operation reports later depends on it
+        props.add("C09")
     return props or {"C09"}, sorted(best)
 
 
